@@ -51,6 +51,10 @@ def operand_slots(t):
         "aggregate-arg": lambda x: fn.Sum(x), "aggregate-filter": lambda x: fn.Sum(a).filter(T.BasicCriterion(P.enums.Equality.eq, x, T.ValueWrapper(1))),
         "analytic-arg": lambda x: an.Sum(x).over(a), "analytic-partition": lambda x: an.Rank().over(x), "analytic-orderby": lambda x: an.Rank().over(a).orderby(x),
         "cast-arg": lambda x: fn.Cast(x, "INT"),
+        # the variants of a function call that have their own rendering path
+        "count-distinct-arg": lambda x: fn.Count(x).distinct(), "sum-distinct-arg": lambda x: fn.Sum(x).distinct(),
+        "analytic-orderby-desc": lambda x: an.Rank().over(a).orderby(x, order=P.enums.Order.desc), "extract-arg": lambda x: fn.Extract("year", x),
+        "aggregate-distinct-filter": lambda x: fn.Count(a).distinct().filter(T.BasicCriterion(P.enums.Equality.eq, x, T.ValueWrapper(1))),
     }
     return S
 
@@ -152,7 +156,7 @@ def cases(run, rng):
                     SEEN["ii"] += 1
                     if sa != sb:
                         record("operand", cn, "%s in %s" % (sn, where), qc, sb, sa, known=("C12-unconditional-alias" if cn in UNCONDITIONAL else None))
-                    elif where == "select-item" and sn in ("arith-right", "cmp-left", "function-arg", "case-then", "analytic-partition", "in-element"):
+                    elif where == "select-item" and sn in ("arith-right", "cmp-left", "function-arg", "count-distinct-arg", "case-then", "analytic-partition", "in-element"):
                         corr.append((qb, [(QNAMES[qc], ctx, "inline")]))
             # clause operands directly (the term itself as WHERE / ORDER BY / GROUP BY item, not selected)
             for where, f in (("orderby-item", lambda x: qc.from_(t).select(zq).orderby(x)), ("groupby-item", lambda x: qc.from_(t).select(zq).groupby(x)),
